@@ -1,6 +1,7 @@
 // C14: LWE / TLWE linear operations act exactly linearly on phases, for every dimension; extraction is exact.
 // Masks of LWE samples live in guard-page buffers so the hand-written AVX2 tail code faults on any overrun.
 #include "vh.hpp"
+#include "heap_phase.hpp"
 VH_MAIN_GLOBALS
 using namespace vh;
 
@@ -225,6 +226,8 @@ int main(int argc, char **argv) {
     std::string mode = args.s("mode", "lwe");
     int reps = args.i("reps", 12);
     rng.reseed(seed * 1000003ull + fnv1a(mode.data(), mode.size()) % 1000 + args.i("salt", 0));
+    // where objects live: as malloc places them, or successive blocks taken in turn from regions terabytes apart
+    { int hp = args.i("heapphase", -1); set_heap_phase(hp); out.cell(hp == 100 ? "heap:blocks-spread-over-distant-regions" : hp < 0 ? "heap:as-malloc-places-it" : "heap:fixed-residue-mod-32"); }
     if (mode == "lwe") {
         for (int n: parse_list(args.s("n", "1,2,3"))) lwe_ops(n, reps);
         out.sample(J().s("mode", "lwe").s("n", args.s("n")).i("reps", reps).s("ops", "AddTo,SubTo,AddMulTo,SubMulTo,Copy,Negate,Clear,NoiselessTrivial,aliased AddTo/SubTo/Negate/AddMulTo,lwePhase").s("p_values", "0,+-1,+-2,+-32767,INT32_MIN,INT32_MAX,random"));
